@@ -108,8 +108,13 @@ func (iloc *itemLoc) Copy(src *itemLoc) {
 	}
 	// NOTE: This trick only works because of the global lock. No reason to lock
 	// src independently of i.
+	// Read the cached item BEFORE the location.  A location only ever goes
+	// from nil to set, and an item is evicted only once its location is set,
+	// so (item, then loc) can never come out as (nil, nil); the other order
+	// can, when a Flush and an evicting reader run between the two reads.
+	item := src.item
 	iloc.loc = src.loc
-	iloc.item = src.item
+	iloc.item = item
 }
 
 const itemLocHdrLength int = 4 + keyPSize + 4 + 4
